@@ -24,6 +24,7 @@ type Unit struct {
 	Verify []string // groups whose contracts are verified (default: all of Groups); the others are only used at call sites
 	MultiPartOnly bool // keep only functions with more than one alias partition (C19)
 	Tier   string   // "" = both tiers, "thorough" = thorough only
+	Deps   []string // "rel/pkg/path:group": contract groups of imported packages, applied at call sites only
 }
 
 type Plan struct {
@@ -209,7 +210,22 @@ func cmdProp(args []string) {
 					groupOf[c] = g
 				}
 			}
-			// contracts of imported packages' groups needed by callers are loaded on demand by plans (Deps)
+			// contract groups of imported packages: applied at call sites, verified under their own unit
+			for _, d := range u.Deps {
+				i := strings.LastIndex(d, ":")
+				drel, g := d[:i], d[i+1:]
+				f := filepath.Join(*repo, drel, "zz_verif_contracts_"+g+".go")
+				cs, err := ParseContracts(f)
+				if err != nil {
+					fmt.Fprintln(os.Stderr, "contracts:", err)
+					os.Exit(2)
+				}
+				hashFile(srcHash, *repo, f)
+				for _, c := range cs {
+					v.contracts[contractKey(drel, c)] = c
+					groupOf[c] = "dep:" + g
+				}
+			}
 			want := map[string]bool{}
 			for _, f := range u.Funcs {
 				want[f] = true
@@ -220,6 +236,9 @@ func cmdProp(args []string) {
 					continue
 				}
 				if len(verifyGroup) > 0 && !verifyGroup[groupOf[c]] {
+					continue
+				}
+				if strings.HasPrefix(groupOf[c], "dep:") {
 					continue
 				}
 				if u.MultiPartOnly {
